@@ -166,7 +166,11 @@ macro_rules! handler {
             let timer = HTTP_REQ_HISTOGRAM
                 .with_label_values(&[stringify!($name)])
                 .start_timer();
+            #[cfg(redproxy_verif)]
+            crate::vtrace::emit("api_begin", serde_json::json!({"handler": stringify!($name)}));
             let ret = { $body };
+            #[cfg(redproxy_verif)]
+            crate::vtrace::emit("api_end", serde_json::json!({"handler": stringify!($name)}));
             timer.stop_and_record();
             ret
         }
